@@ -167,7 +167,7 @@ theorem handleSubmoduleLog_total (cfg : Cfg) (m : M) (l : L) (w : wfState m.st =
   unfold handleSubmoduleLog
   split
   · exact OkWF.mk w
-  · exact handleAdditionalCases_total cfg m l _ rfl
+  · exact handleAdditionalCases_total cfg _ l _ rfl
 
 theorem handleSubmoduleShort_total (cfg : Cfg) (m : M) (l : L) (w : wfState m.st = true) :
     OkWF (handleSubmoduleShort cfg m l) := by
